@@ -734,7 +734,96 @@ def run(R: vlib.Run):
             R.disagree("binary64 twin of the frequency -> channel index and read_block differ", {"requested": f, "fch1": a, "foff": b, "impl_channel": g})
     R.extra_cov["traces_validated_against_impl"] = nval
     R.extra_cov["correspondence_cases"] = len(corr) + len(idx_cases)
+    _pulse_cases(R)
     return R
+
+
+# ---- PulseExtractor.get_data: Props/C08_pulse.v, Gen/Pulse.v ------------------------------------------------------------------
+def _pulse_cases(R):
+    """the block extracted around a pulse: shape = header, sample k is file sample nstart+k inside the file and the channel's pad value
+    elsewhere, the pulse sits at the centre sample; the regenerated geometry (Gen/Pulse.v) is run under vm_compute against the
+    implementation's own derived quantities and one row of the returned data"""
+    import filutil
+    import logging
+    from sigpyproc.readers import PulseExtractor
+    logging.getLogger("sigpyproc").setLevel(logging.ERROR)
+    logging.getLogger("sigpyproc.readers").setLevel(logging.ERROR)
+    R.need(["Gen/Pulse.vo"])
+    rng = R.rng
+    d = os.path.join(vlib.SCRATCH, f"c08p_{os.getpid()}")
+    os.makedirs(d, exist_ok=True)
+    rows = []
+    try:
+        for N, nch in ((40, 4), (97, 2), (300, 4)) if R.tier == "quick" else ((40, 4), (97, 2), (300, 4), (41, 8), (1000, 2)):
+            x = (2 * np.arange(N)[:, None] + 1000 * np.arange(nch)[None, :]).astype(np.float64)      # even values: every median is an integer
+            path = filutil.write_fil(os.path.join(d, f"p{N}.fil"), x, 32, fch1=1500.0, foff=-25.0, tsamp=0.001)
+            toas = sorted(set([0, 1, 2, N // 2, N - 2, N - 1] + [rng.randrange(0, N) for _ in range(6 if R.tier == "quick" else 40)]))
+            for toa in toas:
+                for pw in (1, 2, 4, 7):
+                    for dm in (0.0, 3.0, 40.0):
+                        mn = rng.choice([1, 2, 8, 16, 256])
+                        case = {"api": "PulseExtractor.get_data", "N": N, "nchans": nch, "pulse_toa": toa, "pulse_width": pw, "pulse_dm": dm, "min_nsamps": mn}
+                        R.tick(case)
+                        try:
+                            px = PulseExtractor(path, toa, pw, dm, min_nsamps=mn)
+                            geom = [int(v) for v in (px.t_decimate, px.block_delay, px.nsamps, px.nstart, px.nstart_file, px.nsamps_file, px.pulse_toa_block)]
+                            dd = int(px.disp_delay)
+                        except Exception as e:  # noqa: BLE001
+                            R.fail("PulseExtractor-exception", "PulseExtractor could not be constructed / queried", dict(case, exc=f"{type(e).__name__}: {str(e)[:100]}"))
+                            continue
+                        tdec, bdel, ns, nst = geom[0], geom[1], geom[2], geom[3]
+                        R.case(("pulse", N, toa, pw, dm, mn), nontrivial=nst < 0 or nst + ns > N, regime="pulse-extractor")
+                        case.update(disp_delay=dd, geometry=dict(zip(("t_decimate", "block_delay", "nsamps", "nstart", "nstart_file", "nsamps_file", "pulse_toa_block"), geom)))
+                        if not (tdec >= 1 and ns % tdec == 0 and bdel > dd and ns >= 2 * bdel and geom[6] == ns // 2 and nst <= toa - dd - 1 and toa + dd < nst + ns):
+                            R.fail("PulseExtractor-geometry", "the block is not centred on the pulse / does not cover the dispersion sweep / is not a whole number of decimation steps", case)
+                        try:
+                            blk = px.get_data(pad_mode="median")
+                        except Exception as e:  # noqa: BLE001
+                            R.fail("PulseExtractor-exception", "get_data raised although the block overlaps the file", dict(case, exc=f"{type(e).__name__}: {str(e)[:100]}"))
+                            continue
+                        data = np.asarray(blk.data)
+                        if data.shape != (nch, ns) or blk.header.nsamples != ns or blk.header.nchans != nch:
+                            R.fail("PulseExtractor-shape", "shape of the extracted block / header nsamples differs from the declared block length",
+                                   dict(case, shape=list(data.shape), header_nsamples=int(blk.header.nsamples)))
+                            continue
+                        ks = np.arange(ns) + nst
+                        inside = (ks >= 0) & (ks < N)
+                        want = np.empty((nch, ns))
+                        want[:, inside] = x[ks[inside]].T
+                        med = np.median(x[ks[inside]], axis=0)
+                        want[:, ~inside] = med[:, None]
+                        if not np.array_equal(data.astype(np.float64), want):
+                            bad = np.argwhere(data.astype(np.float64) != want)[0]
+                            R.fail("PulseExtractor-values", "sample k of the block is not file sample nstart+k (inside the file) / the channel's pad value (outside)",
+                                   dict(case, channel=int(bad[0]), k=int(bad[1]), got=float(data[bad[0], bad[1]]), want=float(want[bad[0], bad[1]])))
+                        c = rng.randrange(nch)
+                        rows.append((toa, pw, dd, mn, N, geom, c, int(med[c]), data[c].astype(np.int64).tolist(), case))
+        # correspondence: regenerated geometry and row against the implementation
+        per = 200
+        for si in range(0, len(rows), per):
+            sh = rows[si:si + per]
+            lits = [f"(({t}, {pw}, {dd}, {mn}, {N}), ({', '.join(str(g) if g >= 0 else f'({g})' for g in geom)}), ({c}, {padv}), {vlib.zlist(row)})"
+                    for t, pw, dd, mn, N, geom, c, padv, row, _ in sh]
+            v = ["From Coq Require Import ZArith List Bool.", "Require Import SPP.Base.Rt SPP.Gen.Pulse.", "Import ListNotations.", "Open Scope Z_scope.",
+                 "Definition cases : list ((Z * Z * Z * Z * Z) * (Z * Z * Z * Z * Z * Z * Z) * (Z * Z) * list Z) := [", ";\n".join(lits), "].",
+                 "Definition ok (c : (Z * Z * Z * Z * Z) * (Z * Z * Z * Z * Z * Z * Z) * (Z * Z) * list Z) : bool :=",
+                 "  let '((toa, pw, dd, mn, N), (g1, g2, g3, g4, g5, g6, g7), (ch, padv), row) := c in",
+                 "  let '(h1, h2, h3, h4, h5, h6, h7) := px_geom toa pw dd mn N in",
+                 "  let r := px_get_row (fun k => 2 * k + 1000 * ch) padv toa pw dd mn N in",
+                 "  (g1 =? h1) && (g2 =? h2) && (g3 =? h3) && (g4 =? h4) && (g5 =? h5) && (g6 =? h6) && (g7 =? h7) && list_eqb (to_list (snd r) (fst r)) row.",
+                 "Definition idx := map fst (filter (fun p => negb (ok (snd p))) (combine (seq 0 (length cases)) cases)).",
+                 "Eval vm_compute in (length cases, idx)."]
+            rc, outp = vlib.coq_run(f"c08_pulse_{si // per}", "\n".join(v), timeout=600)
+            vals = vlib.parse_eval(outp)
+            if rc != 0 or not vals:
+                R.red.append("correspondence: Corr/c08_pulse did not evaluate (Gen/Pulse.v incomplete?): " + outp[-300:])
+                continue
+            nums = [int(z) for z in re.findall(r"(\d+)%nat", vals[0])]
+            R.extra_cov["pulse_blocks_validated_against_model"] = R.extra_cov.get("pulse_blocks_validated_against_model", 0) + (nums[0] if nums else 0)
+            for bi in nums[1:4]:
+                R.disagree("regenerated PulseExtractor geometry / row (Gen/Pulse.v) and the implementation differ", sh[bi][-1])
+    finally:
+        shutil.rmtree(d, ignore_errors=True)
 
 
 # ---- the at-scale search ------------------------------------------------------------------------------------------------
